@@ -307,7 +307,7 @@ func totalityPatterns(thorough bool) []ref.Bits {
 func c20Totality(r *eng.Run) {
 	t0 := time.Now()
 	// self-check: every exported function/method is mapped
-	api, err := exportedAPI("/repo")
+	api, err := exportedAPI(RepoDir())
 	if err != nil {
 		r.SelfFail("cannot enumerate the exported API: %v", err)
 	} else {
@@ -683,7 +683,11 @@ type schedOutput struct {
 
 func goEnv() []string {
 	env := os.Environ()
-	env = append(env, "GOFLAGS=-mod=mod", "GOPROXY=off", "GOSUMDB=off", "GOTOOLCHAIN=local")
+	flags := "GOFLAGS=-mod=mod"
+	if mf := os.Getenv("VERIF_MODFILE"); mf != "" {
+		flags += " -modfile=" + mf
+	}
+	env = append(env, flags, "GOPROXY=off", "GOSUMDB=off", "GOTOOLCHAIN=local")
 	return env
 }
 
@@ -710,7 +714,7 @@ func c20Schedules(r *eng.Run) {
 	for vi, v := range variants {
 		t0 := time.Now()
 		dir := filepath.Join(work, fmt.Sprintf("v%d", vi))
-		info, err := instr.Generate("/repo", dir, filepath.Join(mcDir, "verifsched", "sched.go"), v.allVars)
+		info, err := instr.Generate(RepoDir(), dir, filepath.Join(mcDir, "verifsched", "sched.go"), v.allVars)
 		if err != nil {
 			r.SelfFail("instrumenter failed: %v", err)
 			return
@@ -886,7 +890,7 @@ func init() {
 		os.RemoveAll(dir)
 		defer os.RemoveAll(dir)
 		mcDir := filepath.Join(root, "mc")
-		info, err := instr.Generate("/repo", dir, filepath.Join(mcDir, "verifsched", "sched.go"), strings.HasPrefix(c.Args[0], "all-vars"))
+		info, err := instr.Generate(RepoDir(), dir, filepath.Join(mcDir, "verifsched", "sched.go"), strings.HasPrefix(c.Args[0], "all-vars"))
 		if err != nil {
 			return "", "", err
 		}
